@@ -1,7 +1,7 @@
 """C01 -- symbolic tree integrity (bounded tier, never counted as proved).
 
 Oracle (from the property statement, not from the code): after every step of a
-history of public operations, for every tree that the history can reach
+history of public operations, for every tree the history can reach
 
   * every symbolic node reachable from the root (walking the *storage* with
     `sym_items()`) has `sym_parent` equal to the container it was found in (for
@@ -13,15 +13,20 @@ history of public operations, for every tree that the history can reach
     a node that was detached (parent None) is the root of a well-formed tree of
     its own (empty path, descendants addressed relative to it).
 
-Histories are Python statements executed with `exec` over a small mixed tree
-(`pg.Dict` / `pg.List` / `pg.Object` nodes); the witness of a failure is the
-very statement sequence followed by the failing assertion.
+Histories are Python statements executed with `exec` over small trees of
+`pg.Dict` / `pg.List` / `pg.Object` nodes; the witness of a failure is the
+very statement sequence followed by the failing assertion.  Operations may
+raise (bad index, type error, ...): the tree must be well-formed all the same.
 
-A history is not extended past a step that broke the tree itself (later
-violations would be consequences); violations that concern only the removed
-node do not stop the history.
+case_id = <container>.<operation>[@context][!raised]/<violation kind>; the
+value class / index of the input goes to the key only.  Per step only the most
+severe kind of tree violation is reported (two-places > wrong-parent >
+no-parent > stale-path > lookup > sym_root), plus at most one violation about
+the removed node.  A history is not extended past a step that broke a tree
+(later violations would be consequences); violations that concern only the
+removed node do not stop the history.
 """
-import itertools
+import copy
 import os
 import signal
 import subprocess
@@ -32,15 +37,13 @@ import threading
 import pyglove as pg
 from pyvc.bounded import Recorder, rng
 
-__name__ = __name__  # pylint: disable=self-assigning-variable
-
 
 @pg.members([
     ('x', pg.typing.Any(default=None)),
     ('y', pg.typing.Any(default=None)),
 ])
 class A(pg.Object):
-  pass
+  allow_symbolic_assignment = True
 
 
 @pg.members([
@@ -51,29 +54,22 @@ class A(pg.Object):
     ('a', pg.typing.Object(A).noneable()),
 ])
 class B(pg.Object):
-  pass
+  allow_symbolic_assignment = True
 
 
-PRELUDE = '''\
-__name__ = 'c01_witness'
-import copy
-import pyglove as pg
-@pg.members([('x', pg.typing.Any(default=None)), ('y', pg.typing.Any(default=None))])
-class A(pg.Object):
-  pass
-@pg.members([
-  ('l', pg.typing.List(pg.typing.Dict([('v', pg.typing.Any(default=0))]), default=[])),
-  ('d', pg.typing.Dict([('n', pg.typing.Dict([('m', pg.typing.Any(default=0))])),
-                        ('k', pg.typing.List(pg.typing.Any(), default=[]))])),
-  ('a', pg.typing.Object(A).noneable())])
-class B(pg.Object):
-  pass
-'''
+HEAD = "__name__ = 'c01_witness'\nimport copy\nimport pyglove as pg\n"
+CLASS_A = ("@pg.members([('x', pg.typing.Any(default=None)), ('y', pg.typing.Any(default=None))])\n"
+           "class A(pg.Object): allow_symbolic_assignment = True\n")
+CLASS_B = ("T = pg.typing\n"
+           "@pg.members([('l', T.List(T.Dict([('v', T.Any(default=0))]), default=[])), "
+           "('d', T.Dict([('n', T.Dict([('m', T.Any(default=0))])), ('k', T.List(T.Any(), default=[]))])), "
+           "('a', T.Object(A).noneable())])\n"
+           "class B(pg.Object): allow_symbolic_assignment = True\n")
 
 # --------------------------------------------------------------------------
 # Trees.  Every tree binds `r` (the root under test), `ext` (another tree),
-# `t` (a node that already has a parent, in `ext`) and `s` (a slot for a node
-# popped by an earlier step).
+# `t` (a node that already has a parent, in `ext`) and `s` (a parentless node;
+# later the node popped by an earlier step).
 # --------------------------------------------------------------------------
 
 _EXT = ("ext = pg.Dict(k=pg.Dict(v=pg.Dict(w=1)), j=[pg.Dict(e=1)])\n"
@@ -81,16 +77,15 @@ _EXT = ("ext = pg.Dict(k=pg.Dict(v=pg.Dict(w=1)), j=[pg.Dict(e=1)])\n"
         "s = pg.Dict(g=pg.Dict(h=1))\n")
 
 TREES = {
-    # mixed tree, untyped
     'mixed': (
-        "r = pg.Dict(l=[{'x': {'i': 1}}, A(x=[{'q': 1}]), 7, [{'c': 1}]], "
-        "d={'m': {'n': 1}, 'k': [{'z': 1}]}, "
-        "o=A(x={'p': {'pp': 1}}, y=[{'u': 1}, 2, {'u': 0}]))\n" + _EXT),
-    # list at the root
+        "r = pg.Dict(l=[{'x': {'i': 1}}, A(x=[{'q': 1}]), 7, {'c': 1}], "
+        "d={'m': {'n': 1}, 'k': [{'z': 1}, 2]})\n" + _EXT),
+    'objtree': (
+        "r = A(x={'p': {'pp': 1}, 'q': [1]}, y=[{'u': 1}, 2, A(x={'w': 1})])\n"
+        + _EXT),
     'rootlist': (
         "r = pg.List([{'x': {'i': 1}}, [{'c': 1}, 3], A(x={'p': 1}), 7])\n"
         + _EXT),
-    # object at the root, typed members (value specs on nested Dict / List)
     'typed': (
         "r = B(l=[{'v': {'i': 1}}, {'v': [{'c': 1}]}], "
         "d={'n': {'m': {'mm': 1}}, 'k': [{'z': 1}, 2]}, a=A(x={'p': 1}))\n"
@@ -99,16 +94,17 @@ TREES = {
 
 
 class Op:
-  __slots__ = ('cls', 'src', 'code', 'core')
+  __slots__ = ('group', 'label', 'src', 'code', 'core')
 
-  def __init__(self, cls, src, core=False):
-    self.cls = cls
+  def __init__(self, group, label, src, core=False):
+    self.group = group
+    self.label = label
     self.src = src
     self.core = core
     self.code = compile(src, '<op>', 'exec')
 
   def __repr__(self):
-    return f'{self.cls}: {self.src}'
+    return f'{self.group}[{self.label}]: {self.src}'
 
 
 # Values to insert: (label, source).  `{IN}` is replaced by an in-tree node
@@ -124,235 +120,256 @@ VALUES = [
     ('detached', 's'),
 ]
 CORE_VALUES = ('fresh', 'parented-in-tree', 'detached')
+_FN = ('lambda k, v: pg.Dict(rb=pg.Dict(q=1)) if isinstance(v, int) else v, '
+       'raise_on_no_change=False')
 
 
-def _vals(intree, core_only=False, typed=None):
+def _vals(intree):
   for label, src in VALUES:
-    if core_only and label not in CORE_VALUES:
-      continue
     yield label, src.replace('{IN}', intree)
 
 
-def list_ops(L, intree, tag, core_target=False):
-  """All mutators of a list reachable through expression `L`."""
+def list_ops(L, intree, core_target=False):
+  """Every mutator of the list reachable through expression `L`."""
   ops = []
 
-  def add(cls, src, core=False):
-    ops.append(Op(f'list.{cls}', src, core and core_target))
+  def add(group, label, src, core=False):
+    ops.append(Op(f'list.{group}', label, src, core and core_target))
 
-  for label, v in _vals(intree):
-    c = label in CORE_VALUES
-    add(f'setitem/{label}', f'{L}[0] = {v}', c)
-    add(f'setitem/{label}', f'{L}[-1] = {v}')
-    add(f'append/{label}', f'{L}.append({v})', c)
-    add(f'insert/{label}', f'{L}.insert(0, {v})', c)
-    add(f'insert/{label}', f'{L}.insert(1, {v})')
-    add(f'insert/{label}', f'{L}.insert(-1, {v})')
-    add(f'insert/{label}', f'{L}.insert(99, {v})')
-    add(f'extend/{label}', f'{L}.extend([{v}, {v}])', label == 'fresh')
-    add(f'iadd/{label}', f'{L} += [{v}]', label == 'fresh')
-    add(f'slice-assign-same/{label}', f'{L}[0:1] = [{v}]', label == 'fresh')
-    add(f'slice-assign-grow/{label}', f'{L}[0:1] = [{v}, 6, {v}]')
-    add(f'slice-assign-grow/{label}', f'{L}[1:1] = [{v}]', label == 'fresh')
-    add(f'slice-assign-shrink/{label}', f'{L}[0:2] = [{v}]', label == 'fresh')
-    add(f'slice-assign-step/{label}', f'{L}[0:3:2] = [{v}, {v}]')
-    add(f'slice-assign-step/{label}', f'{L}[::-1] = [{v}] * len({L})')
-    add(f'rebind-set/{label}', f'{L}.rebind({{0: {v}}})', c)
-    add(f'rebind-insert/{label}', f'{L}.rebind({{0: pg.Insertion({v})}})', c)
-    add(f'rebind-insert/{label}', f'{L}.rebind({{1: pg.Insertion({v})}})')
-    add(f'rebind-multi/{label}',
-        f'{L}.rebind({{0: pg.Insertion({v}), 1: pg.MISSING_VALUE, 2: {v}}})',
-        label == 'fresh')
-    add(f'rebind-append/{label}', f'{L}.rebind({{len({L}): {v}}})')
-    add(f'rebind-insert@skip_notification/{label}',
+  for vl, v in _vals(intree):
+    c = vl in CORE_VALUES
+    f = vl == 'fresh'
+    add('setitem', f'first/{vl}', f'{L}[0] = {v}', c)
+    add('setitem', f'last/{vl}', f'{L}[-1] = {v}')
+    add('append', vl, f'{L}.append({v})', c)
+    add('insert', f'at0/{vl}', f'{L}.insert(0, {v})', c)
+    add('insert', f'at1/{vl}', f'{L}.insert(1, {v})')
+    add('insert', f'at-1/{vl}', f'{L}.insert(-1, {v})')
+    add('insert', f'beyond/{vl}', f'{L}.insert(99, {v})')
+    add('extend', f'two/{vl}', f'{L}.extend([{v}, {v}])', f)
+    add('iadd', vl, f'{L} += [{v}]', f)
+    add('setitem-slice', f'same/{vl}', f'{L}[0:1] = [{v}]', f)
+    add('setitem-slice', f'grow/{vl}', f'{L}[0:1] = [{v}, 6, {v}]')
+    add('setitem-slice', f'insert/{vl}', f'{L}[1:1] = [{v}]', f)
+    add('setitem-slice', f'shrink/{vl}', f'{L}[0:2] = [{v}]', f)
+    add('setitem-slice', f'step2/{vl}', f'{L}[0:3:2] = [{v}, {v}]')
+    add('setitem-slice', f'step-1/{vl}', f'{L}[::-1] = [{v}] * len({L})')
+    add('rebind-set', vl, f'{L}.rebind({{0: {v}}})', c)
+    add('rebind-insert', f'at0/{vl}', f'{L}.rebind({{0: pg.Insertion({v})}})', c)
+    add('rebind-insert', f'at1/{vl}', f'{L}.rebind({{1: pg.Insertion({v})}})')
+    add('rebind-multi', f'insert+delete+set/{vl}',
+        f'{L}.rebind({{0: pg.Insertion({v}), 1: pg.MISSING_VALUE, 2: {v}}})', f)
+    add('rebind-set', f'append/{vl}', f'{L}.rebind({{len({L}): {v}}})')
+    add('rebind-insert@skip_notification', vl,
         f'{L}.rebind({{0: pg.Insertion({v})}}, skip_notification=True)')
-    add(f'rebind-set@notify_parents_off/{label}',
+    add('rebind-set@notify_parents_off', vl,
         f'{L}.rebind({{0: {v}}}, notify_parents=False)')
-    add(f'insert@notify_off/{label}',
+    add('insert@notify_off', vl,
         f'with pg.notify_on_change(False): {L}.insert(0, {v})')
-    add(f'setitem@notify_off/{label}',
+    add('setitem@notify_off', vl,
         f'with pg.notify_on_change(False): {L}[0] = {v}')
-    add(f'append@notify_off/{label}',
+    add('append@notify_off', vl,
         f'with pg.notify_on_change(False): {L}.append({v})')
-    add(f'setitem@typecheck_off/{label}',
+    add('setitem@typecheck_off', vl,
         f'with pg.enable_type_check(False): {L}[0] = {v}')
-    add(f'add-assign/{label}', f'{L} = {L} + [{v}]')
-  add('extend/symbolic-list-with-children', f'{L}.extend(ext.j)')
-  add('extend/self', f'{L}.extend({L})')
-  add('iadd/self', f'{L} += {L}')
-  add('imul/2', f'{L} *= 2', True)
-  add('imul/0', f'{L} *= 0')
-  add('imul/1', f'{L} *= 1')
-  add('mul-assign', f'{L} = {L} * 2')
-  add('delitem/first', f'del {L}[0]', True)
-  add('delitem/last', f'del {L}[-1]')
-  add('delitem/middle', f'del {L}[1]')
-  add('delitem/slice', f'del {L}[0:2]')
-  add('delitem/slice-step', f'del {L}[::2]')
-  add('delitem@notify_off', f'with pg.notify_on_change(False): del {L}[0]')
-  add('pop/first', f's = {L}.pop(0)', True)
-  add('pop/last', f's = {L}.pop()')
-  add('pop/middle', f's = {L}.pop(1)')
-  add('pop@notify_off', f'with pg.notify_on_change(False): s = {L}.pop(0)')
-  add('remove/prim', f'{L}.remove(7)')
-  add('remove/symbolic', f'{L}.remove({L}[0])', True)
-  add('clear', f'{L}.clear()', True)
-  add('sort', f'{L}.sort(key=str)')
-  add('sort/reverse', f'{L}.sort(key=str, reverse=True)', True)
-  add('reverse', f'{L}.reverse()', True)
-  add('slice-assign-empty', f'{L}[0:2] = []', True)
-  add('slice-assign-all-empty', f'{L}[:] = []')
-  add('slice-assign-self', f'{L}[:] = list({L})')
-  add('slice-assign-rotate', f'{L}[:] = list({L})[1:] + list({L})[:1]', True)
-  add('setitem/missing-value', f'{L}[0] = pg.MISSING_VALUE')
-  add('rebind-delete/first', f'{L}.rebind({{0: pg.MISSING_VALUE}})', True)
-  add('rebind-delete/two', f'{L}.rebind({{0: pg.MISSING_VALUE, 1: pg.MISSING_VALUE}})')
-  add('rebind-delete@skip_notification',
+    add('add', vl, f'{L} = {L} + [{v}]')
+  add('extend', 'symbolic-list-with-children', f'{L}.extend(ext.j)')
+  add('extend', 'self', f'{L}.extend({L})')
+  add('iadd', 'self', f'{L} += {L}')
+  add('imul', '2', f'{L} *= 2', True)
+  add('imul', '0', f'{L} *= 0')
+  add('imul', '1', f'{L} *= 1')
+  add('mul', '2', f'{L} = {L} * 2')
+  add('delitem', 'first', f'del {L}[0]', True)
+  add('delitem', 'last', f'del {L}[-1]')
+  add('delitem', 'middle', f'del {L}[1]')
+  add('delitem-slice', '0:2', f'del {L}[0:2]')
+  add('delitem-slice', '::2', f'del {L}[::2]')
+  add('delitem@notify_off', 'first',
+      f'with pg.notify_on_change(False): del {L}[0]')
+  add('pop', 'first', f's = {L}.pop(0)', True)
+  add('pop', 'last', f's = {L}.pop()')
+  add('pop', 'middle', f's = {L}.pop(1)')
+  add('pop@notify_off', 'first',
+      f'with pg.notify_on_change(False): s = {L}.pop(0)')
+  add('remove', 'prim', f'{L}.remove(7)')
+  add('remove', 'symbolic', f'{L}.remove({L}[0])', True)
+  add('clear', '', f'{L}.clear()', True)
+  add('sort', 'key', f'{L}.sort(key=str)')
+  add('sort', 'key-reverse', f'{L}.sort(key=str, reverse=True)', True)
+  add('reverse', '', f'{L}.reverse()', True)
+  add('setitem-slice', 'delete-two', f'{L}[0:2] = []', True)
+  add('setitem-slice', 'delete-all', f'{L}[:] = []')
+  add('setitem-slice', 'self', f'{L}[:] = list({L})')
+  add('setitem-slice', 'rotate', f'{L}[:] = list({L})[1:] + list({L})[:1]', True)
+  add('setitem', 'missing-value', f'{L}[0] = pg.MISSING_VALUE')
+  add('rebind-delete', 'first', f'{L}.rebind({{0: pg.MISSING_VALUE}})', True)
+  add('rebind-delete', 'two',
+      f'{L}.rebind({{0: pg.MISSING_VALUE, 1: pg.MISSING_VALUE}})')
+  add('rebind-delete@skip_notification', 'first',
       f'{L}.rebind({{0: pg.MISSING_VALUE}}, skip_notification=True)')
-  add('rebind-fn', f'{L}.rebind(lambda k, v: pg.Dict(rb=pg.Dict(q=1)) if isinstance(v, int) else v, raise_on_no_change=False)')
-  add('rebind-swap', f'{L}.rebind({{0: {L}[1], 1: {L}[0]}})', True)
-  add('setitem/swap', f'{L}[0], {L}[1] = {L}[1], {L}[0]', True)
-  add('setitem/same-node', f'{L}[0] = {L}[0]')
-  add('setitem/sibling', f'{L}[0] = {L}[1]')
-  add('use_value_spec', f'{L}.use_value_spec(pg.typing.List(pg.typing.Any()))')
-  add('seal-then-write', f'{L}.seal()\ntry: {L}.append(pg.Dict(z=1))\nfinally: {L}.seal(False)')
+  add('rebind-fn', '', f'{L}.rebind({_FN})')
+  add('rebind-set', 'swap', f'{L}.rebind({{0: {L}[1], 1: {L}[0]}})', True)
+  add('setitem', 'swap', f'{L}[0], {L}[1] = {L}[1], {L}[0]', True)
+  add('setitem', 'same-node', f'{L}[0] = {L}[0]')
+  add('setitem', 'sibling', f'{L}[0] = {L}[1]')
+  add('use_value_spec', '', f'{L}.use_value_spec(pg.typing.List(pg.typing.Any()))')
+  add('append@sealed', '',
+      f'{L}.seal()\ntry: {L}.append(pg.Dict(z=1))\nfinally: {L}.seal(False)')
   return ops
 
 
-def dict_ops(D, intree, tag, core_target=False, keys=('a', 'b')):
-  """All mutators of a dict reachable through expression `D`.
+def dict_ops(D, intree, core_target=False, keys=('a', 'b')):
+  """Every mutator of the dict reachable through expression `D`.
 
-  keys[0]: a key that exists and holds a symbolic node; keys[1]: another
-  existing key ('' if none).
+  keys[0]: an existing key holding a symbolic node; keys[1]: another existing
+  key ('' if none).
   """
   ops = []
   k0, k1 = keys
 
-  def add(cls, src, core=False):
-    ops.append(Op(f'dict.{cls}', src, core and core_target))
+  def add(group, label, src, core=False):
+    ops.append(Op(f'dict.{group}', label, src, core and core_target))
 
-  for label, v in _vals(intree):
-    c = label in CORE_VALUES
-    add(f'setitem-replace/{label}', f'{D}[{k0!r}] = {v}', c)
-    add(f'setitem-new/{label}', f"{D}['z'] = {v}", c)
-    add(f'setitem-intkey/{label}', f'{D}[1] = {v}')
-    add(f'setattr-replace/{label}', f'{D}.{k0} = {v}')
-    add(f'setattr-new/{label}', f'{D}.z = {v}')
-    add(f'setdefault-new/{label}', f"{D}.setdefault('z', {v})", label == 'fresh')
-    add(f'setdefault-existing/{label}', f'{D}.setdefault({k0!r}, {v})')
-    add(f'update-dict/{label}', f"{D}.update({{{k0!r}: {v}, 'z': {v}}})", c)
-    add(f'update-kwargs/{label}', f'{D}.update(z={v})')
-    add(f'update-pairs/{label}', f"{D}.update([('z', {v}), ({k0!r}, 1)])")
-    add(f'ior/{label}', f"{D} |= {{'z': {v}}}", label == 'fresh')
-    add(f'ior-replace/{label}', f'{D} |= {{{k0!r}: {v}}}')
-    add(f'or-assign/{label}', f"{D} = {D} | {{'z': {v}}}")
-    add(f'rebind-replace/{label}', f'{D}.rebind({{{k0!r}: {v}}})', c)
-    add(f'rebind-new/{label}', f'{D}.rebind(z={v})')
-    add(f'rebind-multi/{label}',
-        f"{D}.rebind({{{k0!r}: pg.MISSING_VALUE, 'z': {v}, 'y2': {v}}})",
-        label == 'fresh')
-    add(f'rebind-replace@skip_notification/{label}',
+  for vl, v in _vals(intree):
+    c = vl in CORE_VALUES
+    f = vl == 'fresh'
+    add('setitem', f'replace/{vl}', f'{D}[{k0!r}] = {v}', c)
+    add('setitem', f'new/{vl}', f"{D}['z'] = {v}", c)
+    add('setitem', f'intkey/{vl}', f'{D}[1] = {v}')
+    add('setattr', f'replace/{vl}', f'{D}.{k0} = {v}')
+    add('setattr', f'new/{vl}', f'{D}.z = {v}')
+    add('setdefault', f'new/{vl}', f"{D}.setdefault('z', {v})", f)
+    add('setdefault', f'existing/{vl}', f'{D}.setdefault({k0!r}, {v})')
+    add('update', f'dict/{vl}', f"{D}.update({{{k0!r}: {v}, 'z': {v}}})", c)
+    add('update', f'kwargs/{vl}', f'{D}.update(z={v})')
+    add('update', f'pairs/{vl}', f"{D}.update([('z', {v}), ({k0!r}, 1)])")
+    add('ior', f'new/{vl}', f"{D} |= {{'z': {v}}}", f)
+    add('ior', f'replace/{vl}', f'{D} |= {{{k0!r}: {v}}}')
+    add('or', vl, f"{D} = {D} | {{'z': {v}}}")
+    add('rebind', f'replace/{vl}', f'{D}.rebind({{{k0!r}: {v}}})', c)
+    add('rebind', f'new/{vl}', f'{D}.rebind(z={v})')
+    add('rebind-multi', f'delete+new+new/{vl}',
+        f"{D}.rebind({{{k0!r}: pg.MISSING_VALUE, 'z': {v}, 'y2': {v}}})", f)
+    add('rebind@skip_notification', f'replace/{vl}',
         f'{D}.rebind({{{k0!r}: {v}}}, skip_notification=True)')
-    add(f'rebind-replace@notify_parents_off/{label}',
+    add('rebind@notify_parents_off', f'replace/{vl}',
         f'{D}.rebind({{{k0!r}: {v}}}, notify_parents=False)')
-    add(f'setitem-replace@notify_off/{label}',
+    add('setitem@notify_off', f'replace/{vl}',
         f'with pg.notify_on_change(False): {D}[{k0!r}] = {v}')
-    add(f'setitem-new@typecheck_off/{label}',
+    add('setitem@typecheck_off', f'new/{vl}',
         f"with pg.enable_type_check(False): {D}['z'] = {v}")
-  add('delitem', f'del {D}[{k0!r}]', True)
-  add('delattr', f'del {D}.{k0}')
-  add('delitem@notify_off', f'with pg.notify_on_change(False): del {D}[{k0!r}]')
-  add('pop', f's = {D}.pop({k0!r})', True)
-  add('pop/missing', f"s0 = {D}.pop('nokey', None)")
-  add('popitem', f's = {D}.popitem()[1]', True)
-  add('clear', f'{D}.clear()', True)
-  add('setitem/missing-value', f'{D}[{k0!r}] = pg.MISSING_VALUE')
-  add('rebind-delete', f'{D}.rebind({{{k0!r}: pg.MISSING_VALUE}})', True)
-  add('rebind-fn', f'{D}.rebind(lambda k, v: pg.Dict(rb=pg.Dict(q=1)) if isinstance(v, int) else v, raise_on_no_change=False)')
-  add('setitem/same-node', f'{D}[{k0!r}] = {D}[{k0!r}]')
-  add('update/self', f'{D}.update({D})')
-  add('update/symbolic-dict-with-children', f'{D}.update(ext)')
-  add('ior/symbolic-dict-with-children', f'{D} |= ext')
-  add('use_value_spec', f'{D}.use_value_spec(pg.typing.Dict())')
-  add('seal-then-write', f"{D}.seal()\ntry: {D}['z'] = pg.Dict(z=1)\nfinally: {D}.seal(False)")
+  add('delitem', '', f'del {D}[{k0!r}]', True)
+  add('delattr', '', f'del {D}.{k0}')
+  add('delitem@notify_off', '',
+      f'with pg.notify_on_change(False): del {D}[{k0!r}]')
+  add('pop', 'existing', f's = {D}.pop({k0!r})', True)
+  add('pop', 'missing', f"s0 = {D}.pop('nokey', None)")
+  add('popitem', '', f's = {D}.popitem()[1]', True)
+  add('clear', '', f'{D}.clear()', True)
+  add('setitem', 'missing-value', f'{D}[{k0!r}] = pg.MISSING_VALUE')
+  add('rebind-delete', '', f'{D}.rebind({{{k0!r}: pg.MISSING_VALUE}})', True)
+  add('rebind-fn', '', f'{D}.rebind({_FN})')
+  add('setitem', 'same-node', f'{D}[{k0!r}] = {D}[{k0!r}]')
+  add('update', 'self', f'{D}.update({D})')
+  add('update', 'symbolic-dict-with-children', f'{D}.update(ext)')
+  add('ior', 'symbolic-dict-with-children', f'{D} |= ext')
+  add('use_value_spec', '', f'{D}.use_value_spec(pg.typing.Dict())')
+  add('setitem@sealed', '',
+      f"{D}.seal()\ntry: {D}['z'] = pg.Dict(z=1)\nfinally: {D}.seal(False)")
   if k1:
-    add('setitem/sibling', f'{D}[{k0!r}] = {D}[{k1!r}]', True)
-    add('setitem/swap', f'{D}[{k0!r}], {D}[{k1!r}] = {D}[{k1!r}], {D}[{k0!r}]', True)
-    add('rebind-swap', f'{D}.rebind({{{k0!r}: {D}[{k1!r}], {k1!r}: {D}[{k0!r}]}})')
-    add('pop-then-reinsert', f"s = {D}.pop({k0!r})\n{D}[{k1!r}] = s", True)
+    add('setitem', 'sibling', f'{D}[{k0!r}] = {D}[{k1!r}]', True)
+    add('setitem', 'swap',
+        f'{D}[{k0!r}], {D}[{k1!r}] = {D}[{k1!r}], {D}[{k0!r}]', True)
+    add('rebind', 'swap',
+        f'{D}.rebind({{{k0!r}: {D}[{k1!r}], {k1!r}: {D}[{k0!r}]}})')
+    add('pop+setitem', 'reinsert-popped', f"s = {D}.pop({k0!r})\n{D}[{k1!r}] = s", True)
   return ops
 
 
-def object_ops(O, intree, tag, core_target=False, fields=('x', 'y')):
+def object_ops(O, intree, core_target=False, fields=('x', 'y')):
   ops = []
   f0, f1 = fields
 
-  def add(cls, src, core=False):
-    ops.append(Op(f'object.{cls}', src, core and core_target))
+  def add(group, label, src, core=False):
+    ops.append(Op(f'object.{group}', label, src, core and core_target))
 
-  for label, v in _vals(intree):
-    c = label in CORE_VALUES
-    add(f'setattr/{label}', f'{O}.{f0} = {v}', c)
-    add(f'setattr-other/{label}', f'{O}.{f1} = {v}')
-    add(f'rebind-kwargs/{label}', f'{O}.rebind({f0}={v})', c)
-    add(f'rebind-both/{label}', f'{O}.rebind({f0}={v}, {f1}={v})')
-    add(f'rebind@skip_notification/{label}',
+  for vl, v in _vals(intree):
+    c = vl in CORE_VALUES
+    add('setattr', f'{vl}', f'{O}.{f0} = {v}', c)
+    add('setattr', f'other/{vl}', f'{O}.{f1} = {v}')
+    add('rebind', f'kwargs/{vl}', f'{O}.rebind({f0}={v})', c)
+    add('rebind', f'both/{vl}', f'{O}.rebind({f0}={v}, {f1}={v})')
+    add('rebind@skip_notification', vl,
         f'{O}.rebind({f0}={v}, skip_notification=True)')
-    add(f'setattr@notify_off/{label}',
+    add('setattr@notify_off', vl,
         f'with pg.notify_on_change(False): {O}.{f0} = {v}')
-    add(f'sym_setattr-absent/{label}',
-        f'{O}.rebind({{"nofield": {v}}})')
-  add('rebind-reset-default', f'{O}.rebind({f0}=pg.MISSING_VALUE)', True)
-  add('rebind-swap', f'{O}.rebind({f0}={O}.{f1}, {f1}={O}.{f0})', True)
-  add('setattr/swap', f'{O}.{f0}, {O}.{f1} = {O}.{f1}, {O}.{f0}', True)
-  add('setattr/same-node', f'{O}.{f0} = {O}.{f0}')
-  add('rebind-fn', f'{O}.rebind(lambda k, v: pg.Dict(rb=pg.Dict(q=1)) if isinstance(v, int) else v, raise_on_no_change=False)')
-  add('seal-then-write', f'{O}.seal()\ntry: {O}.{f0} = pg.Dict(z=1)\nfinally: {O}.seal(False)')
+    add('setattr@writable_accessors', vl,
+        f'with pg.allow_writable_accessors(True): {O}.{f0} = {v}')
+    add('rebind', f'absent-field/{vl}', f'{O}.rebind({{"nofield": {v}}})')
+  add('rebind', 'reset-default', f'{O}.rebind({f0}=pg.MISSING_VALUE)', True)
+  add('rebind', 'swap', f'{O}.rebind({f0}={O}.{f1}, {f1}={O}.{f0})', True)
+  add('setattr', 'swap', f'{O}.{f0}, {O}.{f1} = {O}.{f1}, {O}.{f0}', True)
+  add('setattr', 'same-node', f'{O}.{f0} = {O}.{f0}')
+  add('rebind-fn', '', f'{O}.rebind({_FN})')
+  add('setattr@sealed', '',
+      f'{O}.seal()\ntry: {O}.{f0} = pg.Dict(z=1)\nfinally: {O}.seal(False)')
   return ops
 
 
 def whole_tree_ops():
   ops = []
 
-  def add(cls, src, core=False):
-    ops.append(Op(cls, src, core))
-  add('clone/deep-rebound', 'r0 = r\nr = r.clone(deep=True)', True)
-  add('clone/shallow-rebound', 'r0 = r\nr = r.clone()', True)
-  add('clone/copy.copy', 'r0 = r\nr = copy.copy(r)')
-  add('clone/copy.deepcopy', 'r0 = r\nr = copy.deepcopy(r)')
-  add('from_json/roundtrip', 'r0 = r\nr = pg.from_json(pg.to_json(r))', True)
-  add('from_json/str-roundtrip',
+  def add(group, label, src, core=False):
+    ops.append(Op(group, label, src, core))
+  add('clone', 'deep', 'r0 = r\nr = r.clone(deep=True)', True)
+  add('clone', 'shallow', 'r0 = r\nr = r.clone()', True)
+  add('clone', 'copy.copy', 'r0 = r\nr = copy.copy(r)')
+  add('clone', 'copy.deepcopy', 'r0 = r\nr = copy.deepcopy(r)')
+  add('from_json', 'roundtrip', 'r0 = r\nr = pg.from_json(pg.to_json(r))', True)
+  add('from_json', 'str-roundtrip',
       'r0 = r\nr = pg.from_json_str(pg.to_json_str(r))')
-  add('clone/subtree-into-ext',
+  add('dict.setitem', 'subtree-into-other-tree',
       'ext.c = next(v for v in r.sym_values() if isinstance(v, pg.Symbolic))')
   return ops
 
 
 def deep_rebind_ops(kind):
-  """Rebind from the root with one and with several deep paths."""
+  """Rebind from an ancestor with one and with several deep paths."""
   ops = []
 
-  def add(cls, src, core=False):
-    ops.append(Op(f'rebind-deep.{cls}', src, core))
+  def add(label, src, core=False, ctx=''):
+    ops.append(Op('rebind-deep' + ctx, label, src, core))
   V = 'pg.Dict(n=pg.Dict(m=1))'
   if kind == 'mixed':
     add('one-path', f"r.rebind({{'l[0].x': {V}}})", True)
-    add('one-path', f"r.rebind({{'o.x.p': {V}}})")
-    add('one-path', f"r.rebind({{'o.y[0]': {V}}})")
+    add('one-path', f"r.rebind({{'l[1].x[0]': {V}}})")
+    add('one-path', f"r.rebind({{'d.k[0]': pg.Insertion({V})}})")
     add('one-path/parented', "r.rebind({'d.m': t})", True)
     add('one-path/in-tree', "r.rebind({'d.m': r.l[0]})")
-    add('several-paths', f"r.rebind({{'l[0]': {V}, 'd.m.n': {V}, 'o.y[1]': {V}, 'o.x': t}})", True)
+    add('several-paths', f"r.rebind({{'l[0]': {V}, 'd.m.n': {V}, 'd.k[1]': {V}, 'l[1].x': t}})", True)
     add('several-paths/insert-delete',
-        f"r.rebind({{'l[0]': pg.Insertion({V}), 'l[2]': pg.MISSING_VALUE, 'o.y[0]': pg.MISSING_VALUE, 'd.k[0]': pg.Insertion(s)}})", True)
+        f"r.rebind({{'l[0]': pg.Insertion({V}), 'l[2]': pg.MISSING_VALUE, 'd.k[0]': pg.MISSING_VALUE, 'l[1].x[0]': pg.Insertion(s)}})", True)
     add('several-paths/delete-keys',
-        "r.rebind({'d.m': pg.MISSING_VALUE, 'l[0].x': pg.MISSING_VALUE, 'o.y[1]': pg.MISSING_VALUE})")
+        "r.rebind({'d.m': pg.MISSING_VALUE, 'l[0].x': pg.MISSING_VALUE, 'd.k[1]': pg.MISSING_VALUE})")
     add('several-paths/parent-and-child',
-        f"r.rebind({{'d': {{'m': {{'n': 2}}}}, 'o.x': {V}, 'o.x.n': 3}})")
-    add('several-paths@skip_notification',
-        f"r.rebind({{'l[0]': pg.Insertion({V}), 'o.y[0]': pg.MISSING_VALUE}}, skip_notification=True)")
-    add('nested-target/several-paths',
-        f"r.o.rebind({{'x.p': {V}, 'y[0]': pg.Insertion({V}), 'y[2]': pg.MISSING_VALUE}})", True)
-    add('nested-target/list', f"r.l.rebind({{'[0].x': {V}, '[1].x[0]': pg.Insertion({V}), '[3][0]': pg.MISSING_VALUE}})")
+        f"r.rebind({{'d': {{'m': {{'n': 2}}}}, 'l[1].x': {V}, 'l[1].x.n': 3}})")
+    add('several-paths',
+        f"r.rebind({{'l[0]': pg.Insertion({V}), 'd.k[0]': pg.MISSING_VALUE}}, skip_notification=True)",
+        ctx='@skip_notification')
+    add('nested-target/list', f"r.l.rebind({{'[0].x': {V}, '[1].x[0]': pg.Insertion({V}), '[3]': pg.MISSING_VALUE}})", True)
+  elif kind == 'objtree':
+    add('one-path', f"r.rebind({{'x.p': {V}}})", True)
+    add('one-path', f"r.rebind({{'y[0]': {V}}})")
+    add('one-path', f"r.rebind({{'y[2].x.w': {V}}})")
+    add('one-path/parented', "r.rebind({'x.p': t})")
+    add('several-paths', f"r.rebind({{'x.p.pp': {V}, 'y[0]': pg.Insertion({V}), 'y[2].x': t, 'x.q[0]': s}})", True)
+    add('several-paths/insert-delete',
+        f"r.rebind({{'y[0]': pg.MISSING_VALUE, 'y[1]': pg.Insertion({V}), 'x.q': pg.MISSING_VALUE, 'y[2].y': {V}}})", True)
+    add('several-paths',
+        f"r.rebind({{'y[0]': pg.Insertion({V}), 'x.p': pg.MISSING_VALUE}}, skip_notification=True)",
+        ctx='@skip_notification')
+    add('nested-target/object', f"r.y[2].rebind({{'x.w': {V}, 'y': [{V}]}})")
   elif kind == 'rootlist':
     add('one-path', f"r.rebind({{'[0].x': {V}}})", True)
     add('one-path', f"r.rebind({{'[1][0]': {V}}})")
@@ -360,8 +377,9 @@ def deep_rebind_ops(kind):
     add('several-paths', f"r.rebind({{'[0].x': {V}, '[1][0]': pg.Insertion({V}), '[2].x.p': {V}}})", True)
     add('several-paths/insert-delete',
         f"r.rebind({{'[0]': pg.Insertion({V}), '[1]': pg.MISSING_VALUE, '[1][0]': pg.MISSING_VALUE, '[3]': pg.Insertion(s)}})", True)
-    add('several-paths@skip_notification',
-        f"r.rebind({{'[0]': pg.Insertion({V}), '[2]': pg.MISSING_VALUE}}, skip_notification=True)")
+    add('several-paths',
+        f"r.rebind({{'[0]': pg.Insertion({V}), '[2]': pg.MISSING_VALUE}}, skip_notification=True)",
+        ctx='@skip_notification')
   else:
     W = "{'v': pg.Dict(n=pg.Dict(m=1))}"
     add('one-path', f"r.rebind({{'l[0].v': {V}}})", True)
@@ -370,8 +388,9 @@ def deep_rebind_ops(kind):
     add('several-paths', f"r.rebind({{'l[0]': {W}, 'd.n.m': {V}, 'd.k[0]': pg.Insertion({V}), 'a.x': s}})", True)
     add('several-paths/insert-delete',
         f"r.rebind({{'l[0]': pg.Insertion({W}), 'l[1]': pg.MISSING_VALUE, 'd.k[0]': pg.MISSING_VALUE, 'a': pg.MISSING_VALUE}})", True)
-    add('several-paths@skip_notification',
-        f"r.rebind({{'l[0]': pg.Insertion({W}), 'd.k[0]': pg.MISSING_VALUE}}, skip_notification=True)")
+    add('several-paths',
+        f"r.rebind({{'l[0]': pg.Insertion({W}), 'd.k[0]': pg.MISSING_VALUE}}, skip_notification=True)",
+        ctx='@skip_notification')
     add('typed-reset', "r.rebind({'d': pg.MISSING_VALUE, 'l': pg.MISSING_VALUE})")
   return ops
 
@@ -384,46 +403,48 @@ def alphabet(kind):
     return _ALPHABETS[kind]
   ops = []
   if kind == 'mixed':
-    ops += list_ops('r.l', 'r.d', 'l', True)
-    ops += list_ops('r.o.y', 'r.d', 'oy', True)
-    ops += list_ops('r.l[1].x', 'r.d.m', 'l1x')
-    ops += list_ops('r.l[3]', 'r.d.m', 'l3')
-    ops += dict_ops('r', 'r.d.m', 'r', True, keys=('d', 'l'))
-    ops += dict_ops('r.d', 'r.l[0]', 'd', True, keys=('m', 'k'))
-    ops += dict_ops('r.l[0]', 'r.d', 'l0', False, keys=('x', ''))
-    ops += dict_ops('r.o.x', 'r.d', 'ox', True, keys=('p', ''))
-    ops += object_ops('r.o', 'r.d', 'o', True)
-    ops += object_ops('r.l[1]', 'r.d', 'l1', True)
+    ops += list_ops('r.l', 'r.d', True)
+    ops += list_ops('r.d.k', 'r.l[0]')
+    ops += list_ops('r.l[1].x', 'r.d.m')
+    ops += dict_ops('r', 'r.d.m', True, keys=('d', 'l'))
+    ops += dict_ops('r.d', 'r.l[0]', True, keys=('m', 'k'))
+    ops += dict_ops('r.l[0]', 'r.d', False, keys=('x', ''))
+    ops += object_ops('r.l[1]', 'r.d', True)
+  elif kind == 'objtree':
+    ops += object_ops('r', 'r.x.p', True)
+    ops += object_ops('r.y[2]', 'r.x.p', True)
+    ops += dict_ops('r.x', 'r.y[0]', True, keys=('p', 'q'))
+    ops += list_ops('r.y', 'r.x.p', True)
   elif kind == 'rootlist':
-    ops += list_ops('r', 'r[1][0]', 'r', True)
-    ops += list_ops('r[1]', 'r[0]', 'r1', True)
-    ops += dict_ops('r[0]', 'r[1]', 'r0', True, keys=('x', ''))
-    ops += object_ops('r[2]', 'r[0]', 'r2', True)
+    ops += list_ops('r', 'r[1][0]', True)
+    ops += list_ops('r[1]', 'r[0]', True)
+    ops += dict_ops('r[0]', 'r[1]', True, keys=('x', ''))
+    ops += object_ops('r[2]', 'r[0]', True)
   elif kind == 'typed':
-    ops += list_ops('r.l', 'r.d.n', 'l', True)
-    ops += list_ops('r.d.k', 'r.d.n', 'dk', True)
-    ops += dict_ops('r.d', 'r.a.x', 'd', True, keys=('n', 'k'))
-    ops += dict_ops('r.d.n', 'r.a.x', 'dn', True, keys=('m', ''))
-    ops += dict_ops('r.l[0]', 'r.a.x', 'l0', True, keys=('v', ''))
-    ops += object_ops('r', 'r.d.n', 'r', True, fields=('a', 'd'))
-    ops += object_ops('r.a', 'r.d.n', 'a', True)
-    # typed list wants dict elements with key 'v'
-    for label, v in _vals('r.d.n'):
+    ops += list_ops('r.l', 'r.d.n', True)
+    ops += list_ops('r.d.k', 'r.d.n', True)
+    ops += dict_ops('r.d', 'r.a.x', True, keys=('n', 'k'))
+    ops += dict_ops('r.d.n', 'r.a.x', True, keys=('m', ''))
+    ops += dict_ops('r.l[0]', 'r.a.x', True, keys=('v', ''))
+    ops += object_ops('r', 'r.d.n', True, fields=('a', 'd'))
+    ops += object_ops('r.a', 'r.d.n', True)
+    # the typed list wants dict elements with key 'v'
+    for vl, v in _vals('r.d.n'):
       w = "{'v': %s}" % v
-      ops.append(Op(f'list.append-typed/{label}', f'r.l.append({w})', label in CORE_VALUES))
-      ops.append(Op(f'list.insert-typed/{label}', f'r.l.insert(0, {w})', label in CORE_VALUES))
-      ops.append(Op(f'list.setitem-typed/{label}', f'r.l[0] = {w}'))
-      ops.append(Op(f'list.rebind-insert-typed/{label}', f'r.l.rebind({{0: pg.Insertion({w})}})'))
-      ops.append(Op(f'list.slice-assign-typed/{label}', f'r.l[0:1] = [{w}, {w}]'))
-      ops.append(Op(f'list.iadd-typed/{label}', f'r.l += [{w}]'))
-      ops.append(Op(f'object.setattr-typed-list/{label}', f'r.l = [{w}, {w}]', label == 'fresh'))
-      ops.append(Op(f'object.setattr-typed-dict/{label}', f"r.d = {{'n': {{'m': {v}}}, 'k': [{v}]}}", label == 'fresh'))
-    ops.append(Op('list.insert-typed/symbolic-elem-with-parent', 'r.l.insert(0, r.l[1])', True))
-    ops.append(Op('object.setattr-typed-list/in-tree-list', 'r.d.k = r.l'))
-    ops.append(Op('object.setattr-typed-list/moved-list', 'r.l = ext.j'))
+      c = vl in CORE_VALUES
+      ops.append(Op('list.append', f'typed/{vl}', f'r.l.append({w})', c))
+      ops.append(Op('list.insert', f'typed/{vl}', f'r.l.insert(0, {w})', c))
+      ops.append(Op('list.setitem', f'typed/{vl}', f'r.l[0] = {w}'))
+      ops.append(Op('list.rebind-insert', f'typed/{vl}', f'r.l.rebind({{0: pg.Insertion({w})}})'))
+      ops.append(Op('list.setitem-slice', f'typed/{vl}', f'r.l[0:1] = [{w}, {w}]'))
+      ops.append(Op('list.iadd', f'typed/{vl}', f'r.l += [{w}]'))
+      ops.append(Op('object.setattr', f'typed-list/{vl}', f'r.l = [{w}, {w}]', vl == 'fresh'))
+      ops.append(Op('object.setattr', f'typed-dict/{vl}', f"r.d = {{'n': {{'m': {v}}}, 'k': [{v}]}}", vl == 'fresh'))
+    ops.append(Op('list.insert', 'typed/element-with-parent', 'r.l.insert(0, r.l[1])', True))
+    ops.append(Op('dict.setattr', 'typed/in-tree-list', 'r.d.k = r.l'))
+    ops.append(Op('object.setattr', 'typed/parented-list', 'r.l = ext.j'))
   ops += deep_rebind_ops(kind)
   ops += whole_tree_ops()
-  # de-duplicate identical sources
   seen, out = set(), []
   for op in ops:
     if op.src not in seen:
@@ -439,17 +460,18 @@ def alphabet(kind):
 
 Symbolic = pg.Symbolic
 KeyPath = pg.KeyPath
+_EMPTY = KeyPath()
 
 
 def _nav(root_name, keys):
   return root_name + ''.join(f'.sym_getattr({k!r})' for k in keys)
 
 
-def walk(root):
-  """Yields (keys, container, node) for every symbolic node below root,
-  following storage (sym_items); a node object met twice is yielded twice but
-  entered once."""
-  seen = {id(root)}
+def collect(root, name, nodes):
+  """Adds {id: (node, root name, keys)} for all nodes of the tree (storage walk)."""
+  if id(root) in nodes:
+    return
+  nodes[id(root)] = (root, name, ())
   stack = [((), root)]
   while stack:
     keys, node = stack.pop()
@@ -458,84 +480,120 @@ def walk(root):
     except Exception:  # pylint: disable=broad-except
       continue
     for k, v in items:
-      if isinstance(v, Symbolic):
-        ck = keys + (k,)
-        yield ck, node, v
-        if id(v) not in seen:
-          seen.add(id(v))
-          stack.append((ck, v))
+      if isinstance(v, Symbolic) and id(v) not in nodes:
+        nodes[id(v)] = (v, name, keys + (k,))
+        stack.append((keys + (k,), v))
 
 
-def check_tree(root, name):
-  """Returns (violations, nodes).
+def check_tree(root, name, nodes=None):
+  """Well-formedness of one tree.
 
-  violations: list of (kind, ident, message, assert_src)
-  nodes: {id: node} of all symbolic nodes of the tree including the root.
+  Returns a list of violations (kind, ident, message, assert_src) and adds the
+  nodes of the tree to `nodes` ({id: (node, root name, keys)}).
   """
   out = []
-  nodes = {id(root): root}
-  places = {id(root): ()}
+  if nodes is None:
+    nodes = {}
+  local = {id(root): ()}
+  nodes.setdefault(id(root), (root, name, ()))
   if root.sym_parent is not None:
     out.append(('root-has-parent', (id(root), 'rp'),
-                f'{name}.sym_parent is {root.sym_parent!r:.60}',
+                f'{name}.sym_parent is not None',
                 f'assert {name}.sym_parent is None'))
-  if root.sym_path != KeyPath():
-    out.append(('root-path', (id(root), 'rpath'),
-                f'{name}.sym_path == {str(root.sym_path)!r}',
+  if root.sym_path != _EMPTY:
+    out.append(('root-path-not-empty', (id(root), 'rpath'),
+                f'{name}.sym_path == {str(root.sym_path)!r} although {name}.sym_parent is None',
                 f'assert {name}.sym_path == pg.KeyPath(), {name}.sym_path'))
   parents_ok = not out
-  for keys, container, v in walk(root):
-    nav = _nav(name, keys)
-    pnav = _nav(name, keys[:-1])
-    if id(v) in nodes:
-      out.append(('node-in-two-places', (id(v), 'dup'),
-                  f'the same node object is stored at {_nav(name, places[id(v)])} and at {nav}',
-                  f'assert {nav} is not {_nav(name, places[id(v)])}'))
-      parents_ok = False
-      continue
-    nodes[id(v)] = v
-    places[id(v)] = keys
-    p = v.sym_parent
-    if p is not container:
-      kind = 'child-has-no-parent' if p is None else 'child-has-wrong-parent'
-      out.append((kind, (id(v), 'parent'),
-                  f'{nav}.sym_parent is {("None" if p is None else type(p).__name__ + "@" + str(p.sym_path))}, '
-                  f'expected the container {pnav}',
-                  f'assert {nav}.sym_parent is {pnav}, {nav}.sym_parent'))
-      parents_ok = False
-    want = KeyPath(list(keys))
-    if v.sym_path != want:
-      out.append(('stale-path', (id(v), 'path'),
-                  f'{nav}.sym_path == {str(v.sym_path)!r}, stored at {str(want)!r}',
-                  f'assert str({nav}.sym_path) == {str(want)!r}, {nav}.sym_path'))
+  stack = [((), root)]
+  while stack:
+    keys, container = stack.pop()
     try:
-      got = root.sym_get(want)
-      ok = got is v
-      why = f'returned another object ({got!r:.50})'
+      items = list(container.sym_items())
     except Exception as e:  # pylint: disable=broad-except
-      ok, why = False, f'raised {type(e).__name__}: {e}'
-    if not ok:
-      out.append(('lookup-misses-node', (id(v), 'lookup'),
-                  f'{name}.sym_get({str(want)!r}) {why}',
-                  f'assert {name}.sym_get({str(want)!r}) is {nav}'))
+      out.append(('lookup-misses-node', (id(container), 'items'),
+                  f'{_nav(name, keys)}.sym_items() raised {type(e).__name__}: {e}',
+                  f'list({_nav(name, keys)}.sym_items())'))
+      continue
+    for k, v in items:
+      if not isinstance(v, Symbolic):
+        continue
+      ck = keys + (k,)
+      if id(v) in local:
+        nav = _nav(name, ck)
+        other = _nav(name, local[id(v)])
+        out.append(('node-in-two-places', (id(v), 'dup', ck),
+                    f'the same node object is stored at {other} and at {nav}',
+                    f'assert {nav} is not {other}, "one node object stored in two places"'))
+        parents_ok = False
+        continue
+      local[id(v)] = ck
+      nodes.setdefault(id(v), (v, name, ck))
+      stack.append((ck, v))
+      p = v.sym_parent
+      if p is not container:
+        nav, pnav = _nav(name, ck), _nav(name, keys)
+        kind = 'child-has-no-parent' if p is None else 'child-has-wrong-parent'
+        pdesc = 'None' if p is None else f'a {type(p).__name__} at path {str(p.sym_path)!r}'
+        out.append((kind, (id(v), 'parent'),
+                    f'{nav}.sym_parent is {pdesc}, expected the container {pnav}',
+                    f'assert {nav}.sym_parent is {pnav}, {nav}.sym_parent'))
+        parents_ok = False
+      want = KeyPath(list(ck))
+      if v.sym_path != want:
+        nav = _nav(name, ck)
+        out.append(('stale-path', (id(v), 'path'),
+                    f'{nav}.sym_path == {str(v.sym_path)!r} but it is stored at {str(want)!r}',
+                    f'assert str({nav}.sym_path) == {str(want)!r}, {nav}.sym_path'))
+      try:
+        got = root.sym_get(want)
+        why = None if got is v else 'returned another object'
+      except Exception as e:  # pylint: disable=broad-except
+        why = f'raised {type(e).__name__}: {e}'
+      if why is not None:
+        nav = _nav(name, ck)
+        out.append(('lookup-misses-node', (id(v), 'lookup'),
+                    f'{name}.sym_get({str(want)!r}) {why}',
+                    f'assert {name}.sym_get({str(want)!r}) is {nav}'))
   if parents_ok:
-    for i, v in nodes.items():
+    for i, ck in local.items():
+      v = nodes[i][0]
       try:
         sr = v.sym_root
       except Exception:  # pylint: disable=broad-except
         sr = None
       if sr is not root:
-        nav = _nav(name, places[i])
+        nav = _nav(name, ck)
         out.append(('sym_root-wrong', (i, 'root'),
                     f'{nav}.sym_root is not {name}',
                     f'assert {nav}.sym_root is {name}'))
         break
-  return out, nodes, places
+  return out
 
 
-TREE_KINDS = ('root-has-parent', 'root-path', 'node-in-two-places',
-              'child-has-no-parent', 'child-has-wrong-parent', 'stale-path',
-              'lookup-misses-node', 'sym_root-wrong')
+_PRIORITY = ['node-in-two-places', 'child-has-wrong-parent',
+             'child-has-no-parent', 'stale-path', 'lookup-misses-node',
+             'sym_root-wrong', 'root-has-parent', 'root-path-not-empty']
+
+
+def _tname(node):
+  if isinstance(node, pg.List):
+    return 'list'
+  if isinstance(node, pg.Dict):
+    return 'dict'
+  return 'object'
+
+
+def _parents(nodes):
+  """{id(child): id(container)} from the storage positions."""
+  at = {(rn, keys): i for i, (_, rn, keys) in nodes.items()}
+  return {i: at[(rn, keys[:-1])] for i, (_, rn, keys) in nodes.items()
+          if keys and (rn, keys[:-1]) in at}
+
+
+def wellformed(root, name='root'):
+  """Convenience for other drivers: list of (kind, message, assert_src)."""
+  return [(k, m, a) for k, _, m, a in check_tree(root, name)]
 
 
 class _Hang(BaseException):
@@ -573,7 +631,8 @@ class _Watchdog:
     return False
 
 
-_ENV_BASE = {'pg': pg, 'A': A, 'B': B, 'copy': __import__('copy')}
+_ENV_BASE = {'pg': pg, 'A': A, 'B': B, 'copy': copy,
+             '__name__': 'c01_history'}
 _SETUP_CODE = {k: compile(v, f'<tree {k}>', 'exec') for k, v in TREES.items()}
 ROOT_NAMES = ('r', 'r0', 'ext')
 
@@ -587,27 +646,41 @@ def _roots(env):
   return out
 
 
-def _snapshot(env):
-  """{id: (node, root_name, keys)} of all nodes of all roots + violation keys."""
+def _snapshot(env, full=True):
   nodes, vio = {}, {}
   for n, root in _roots(env):
-    v, ns, places = check_tree(root, n)
-    for x in v:
-      vio[x[1]] = x
-    for i, node in ns.items():
-      nodes.setdefault(i, (node, n, places[i]))
+    if full:
+      for x in check_tree(root, n, nodes):
+        vio[x[1]] = x
+    else:
+      collect(root, n, nodes)
   return nodes, vio
 
 
-def run_history(kind, ops, wd=None):
-  """Runs a history; returns a list per step of (op, new_violations, broke_tree).
+class Step:
+  __slots__ = ('op', 'tree', 'removed', 'raised', 'checked')
 
-  new_violations: list of (kind, message, witness_tail) that appear at that
-  step.  Stops after the first step that breaks a tree.
+  def __init__(self, op, tree, removed, raised, checked=True):
+    self.op = op
+    self.tree = tree        # (kind, message, tail) or None -- breaks the tree
+    self.removed = removed  # list of (kind, message, tail, pre)
+    self.raised = raised
+    self.checked = checked
+
+  @property
+  def bad(self):
+    return self.tree is not None or bool(self.removed)
+
+
+def run_history(kind, ops, wd=None, trusted=0):
+  """Runs a history; returns the list of Steps (stops after a tree break).
+
+  The first `trusted` steps are known to be clean (same prefix was checked
+  before): only the node inventory is taken after them.
   """
   env = dict(_ENV_BASE)
   exec(_SETUP_CODE[kind], env)  # pylint: disable=exec-used
-  before_nodes, before_vio = _snapshot(env)
+  before_nodes, before_vio = _snapshot(env, full=False)
   steps = []
   for idx, op in enumerate(ops):
     raised = None
@@ -616,178 +689,237 @@ def run_history(kind, ops, wd=None):
     try:
       exec(op.code, env)  # pylint: disable=exec-used
     except _Hang:
-      steps.append((op, [('non-terminating', 'the call did not return within the time limit', 'raise AssertionError("did not terminate")', None)], True, None))
+      steps.append(Step(op, ('non-terminating',
+                             'the call did not return within the time limit',
+                             'raise AssertionError("did not terminate")'),
+                        [], None))
       return steps
-    except RecursionError as e:
-      raised = e
     except Exception as e:  # pylint: disable=broad-except
       raised = e
     finally:
       if wd is not None:
         wd.disarm()
-    after_nodes, after_vio = _snapshot(env)
-    new = []
-    broke = False
-    for key, x in after_vio.items():
-      if key not in before_vio:
-        new.append((x[0], x[2], x[3], None))
-        broke = True
-    # Removed / replaced nodes.
-    removed = [(i, rec) for i, rec in before_nodes.items() if i not in after_nodes]
-    for i, (node, rname, keys) in removed:
+    if idx < trusted:
+      before_nodes, before_vio = _snapshot(env, full=False)
+      steps.append(Step(op, None, [], raised, False))
+      continue
+    if wd is not None:
+      wd.arm()
+    try:
+      after_nodes, after_vio = _snapshot(env)
+    except _Hang:
+      steps.append(Step(op, ('non-terminating-walk',
+                             'walking the tree did not terminate',
+                             'raise AssertionError("tree walk did not terminate")'),
+                        [], raised))
+      return steps
+    finally:
+      if wd is not None:
+        wd.disarm()
+    tree = None
+    new = [x for key, x in after_vio.items() if key not in before_vio]
+    if new:
+      new.sort(key=lambda x: _PRIORITY.index(x[0]))
+      tree = (new[0][0], new[0][2], new[0][3])
+    removed = []
+    kinds = set()
+    before_parent = None
+    for i, (node, rname, keys) in before_nodes.items():
+      if i in after_nodes:
+        continue
       p = node.sym_parent
       if p is not None and id(p) in after_nodes:
+        if 'removed-node-keeps-parent' in kinds:
+          continue
+        kinds.add('removed-node-keeps-parent')
         _, prn, pkeys = after_nodes[id(p)]
-        new.append(('removed-node-keeps-parent',
-                    f'node formerly at {_nav(rname, keys)} is no longer stored in the tree but its '
-                    f'sym_parent is still the tree node {_nav(prn, pkeys)}',
-                    f'assert _x.sym_parent is not {_nav(prn, pkeys)}, "removed node still reports a tree node as parent"',
-                    f'_x = {_nav(rname, keys)}'))
-      elif p is None:
-        v, _, _ = check_tree(node, '_x')
-        v = [x for x in v if x[0] in ('root-path', 'stale-path')]
+        removed.append((
+            'removed-node-keeps-parent',
+            f'the node formerly at {_nav(rname, keys)} is no longer stored in the tree but its '
+            f'sym_parent is still the tree node {_nav(prn, pkeys)}',
+            f'assert _x.sym_parent is not {_nav(prn, pkeys)}, "removed node still reports a tree node as its parent"',
+            f'_x = {_nav(rname, keys)}', _tname(p)))
+      elif p is None and 'detached-node-stale-path' not in kinds:
+        v = [x for x in check_tree(node, '_x')
+             if x[0] in ('root-path-not-empty', 'stale-path')]
         if v:
-          new.append(('detached-node-stale-path', v[0][2], v[0][3],
-                      f'_x = {_nav(rname, keys)}'))
-    steps.append((op, new, broke, raised))
-    if broke:
+          if before_parent is None:
+            before_parent = _parents(before_nodes)
+          kinds.add('detached-node-stale-path')
+          removed.append(('detached-node-stale-path',
+                          f'the node formerly at {_nav(rname, keys)} was detached (sym_parent None) but '
+                          + v[0][2],
+                          v[0][3], f'_x = {_nav(rname, keys)}',
+                          _tname(before_nodes[before_parent[i]][0]) if i in before_parent else 'root'))
+    steps.append(Step(op, tree, removed, raised))
+    if tree is not None:
       break
     before_nodes, before_vio = after_nodes, after_vio
   return steps
 
 
-def witness_for(kind, ops, upto, tail, pre):
-  lines = [PRELUDE, TREES[kind]]
+def witness_for(kind, ops, steps, upto, tail, pre):
+  body = [TREES[kind]]
   for i, op in enumerate(ops[:upto + 1]):
     if i == upto and pre:
-      lines.append(pre + '\n')
-    # Operations may legitimately raise (bad index, type error, sealed...).
-    if i == upto:
-      lines.append('try:\n' + textwrap.indent(op.src, '  ') + '\nexcept Exception: pass\n')
+      body.append(pre + '\n')
+    if steps[i].raised is not None:
+      body.append('try:\n' + textwrap.indent(op.src, '  ')
+                  + f'\nexcept {type(steps[i].raised).__name__}: pass\n')
     else:
-      lines.append('try:\n' + textwrap.indent(op.src, '  ') + '\nexcept Exception: pass\n')
-  lines.append(tail + '\n')
-  return ''.join(lines)
+      body.append(op.src + '\n')
+  body.append(tail + '\n')
+  body = ''.join(body)
+  w = HEAD
+  if 'A(' in body or 'B(' in body:
+    w += CLASS_A
+  if 'B(' in body:
+    w += CLASS_B
+  return w + body
 
 
-def _compact_witness(kind, ops, upto, tail, pre):
-  """Same as witness_for but without the classes that are not needed."""
-  w = witness_for(kind, ops, upto, tail, pre)
-  if 'B(' not in w:
-    a = w.index('@pg.members([\n  (\'l\'')
-    b = w.index('class B(pg.Object):\n  pass\n') + len('class B(pg.Object):\n  pass\n')
-    w = w[:a] + w[b:]
-  return w
+def _base(group):
+  return group.split('@')[0]
 
 
-def record_history(rec, kind, ops, steps, seen_prefix_len=0):
-  """Records the outcome of steps[seen_prefix_len:]."""
-  for idx in range(seen_prefix_len, len(steps)):
-    op, new, broke, raised = steps[idx]
-    key = (kind,) + tuple(o.src for o in ops[:idx + 1])
-    if not new:
-      rec.case(f'{op.cls}', key, True)
+def _case_id(step, vkind, former=None):
+  """<container>.<operation>[@context][!raised]/<violation kind>.
+
+  * a detached node with a stale path is attributed to the type of the
+    container that dropped it (`list.replace/...`), whatever the entry point;
+  * for a removed node that keeps its parent, and for violations left behind
+    by a call that raised, the context suffix is dropped.
+  """
+  g = step.op.group
+  if vkind == 'detached-node-stale-path':
+    return f'{former}.replace-or-delete/{vkind}'
+  if vkind == 'removed-node-keeps-parent':
+    return f'{_base(g)}/{vkind}'
+  if step.raised is not None:
+    return f'{_base(g)}!raised/{vkind}'
+  return f'{g}/{vkind}'
+
+
+def record_history(rec, kind, ops, steps, start=0):
+  """Records the outcome of steps[start:]."""
+  for idx in range(start, len(steps)):
+    st = steps[idx]
+    if not st.checked:
       continue
-    kinds_done = set()
-    for vk, msg, tail, pre in new:
-      if vk in kinds_done:
-        continue
-      kinds_done.add(vk)
-      rec.case(f'{op.cls}/{vk}', key, False,
-               message=f'[{kind}] after `{op.src}`: {msg}',
-               witness=_compact_witness(kind, ops, idx, tail, pre))
+    key = (kind,) + tuple(o.src for o in ops[:idx + 1])
+    if not st.bad:
+      rec.case(st.op.group, key, True)
+      continue
+    found = []
+    if st.tree is not None:
+      found.append(st.tree + (None, None))
+    found.extend(st.removed)
+    for vk, msg, tail, pre, former in found:
+      rec.case(_case_id(st, vk, former), key, False,
+               message=f'[tree {kind}] after `{st.op.src}`'
+               + (f' (which raised {type(st.raised).__name__})' if st.raised is not None else '')
+               + f': {msg}',
+               witness=witness_for(kind, ops, steps, idx, tail, pre))
 
 
 # --------------------------------------------------------------------------
 # Drivers.
 # --------------------------------------------------------------------------
 
-def _enumerate(rec, kind, firsts, seconds, thirds=None, wd=None):
-  """All histories a / a,b / a,b,c with shared first-step bookkeeping."""
-  for a in firsts:
-    steps = run_history(kind, [a], wd)
-    record_history(rec, kind, [a], steps)
-    if steps[-1][2]:
+def _initial_trees(rec):
+  for kind in TREES:
+    env = dict(_ENV_BASE)
+    exec(_SETUP_CODE[kind], env)  # pylint: disable=exec-used
+    for n, root in _roots(env):
+      v = check_tree(root, n)
+      w = HEAD + CLASS_A + (CLASS_B if kind == 'typed' else '') + TREES[kind] + (v[0][3] if v else '')
+      rec.case('construction' + (f'/{v[0][0]}' if v else ''), (kind, n), not v,
+               message=v[0][2] if v else '', witness=w)
+
+
+_SINGLE = {}
+
+
+def _single(kind, op, wd):
+  """Cached: does `op` alone break the initial tree of `kind`?"""
+  k = (kind, op.src)
+  if k not in _SINGLE:
+    _SINGLE[k] = run_history(kind, [op], wd)[-1].tree is not None
+  return _SINGLE[k]
+
+
+def _enumerate(rec, kind, firsts, seconds, thirds=None, wd=None,
+               record_first=True):
+  """All histories a / a,b / a,b,c.  `seconds`/`thirds` may be callables
+  taking the index of the first operation."""
+  for ia, a in enumerate(firsts):
+    if record_first or (kind, a.src) not in _SINGLE:
+      steps = run_history(kind, [a], wd)
+      _SINGLE[(kind, a.src)] = steps[-1].tree is not None
+      if record_first:
+        record_history(rec, kind, [a], steps)
+    if _SINGLE[(kind, a.src)]:
       continue
-    for b in seconds:
-      steps = run_history(kind, [a, b], wd)
-      record_history(rec, kind, [a, b], steps, 1)
-      if thirds is None or len(steps) < 2 or steps[-1][2]:
+    for b in (seconds(ia) if callable(seconds) else seconds):
+      h = [a, b]
+      steps = run_history(kind, h, wd, trusted=1)
+      record_history(rec, kind, h, steps, 1)
+      if thirds is None or len(steps) < 2 or steps[-1].tree is not None:
         continue
       for c in thirds:
-        steps = run_history(kind, [a, b, c], wd)
-        record_history(rec, kind, [a, b, c], steps, 2)
+        h = [a, b, c]
+        steps = run_history(kind, h, wd, trusted=2)
+        record_history(rec, kind, h, steps, 2)
 
 
 def drv_histories_exhaustive(tier, seed):
   """Exhaustive short histories over the full operation alphabet."""
-  del seed
   quick = tier == 'quick'
+  sizes = '/'.join(f'{k}:{len(alphabet(k))}' for k in TREES)
+  cores = '/'.join(str(sum(o.core for o in alphabet(k))) for k in TREES)
   rec = Recorder(
       'C01', 'tree well-formedness after every step of short histories',
-      scope=('trees: mixed Dict/List/Object, root List, typed Object; '
-             'alphabet = every list/dict/object mutator x 8 value classes x '
-             'up to 4 targets per tree (%s ops); all histories of length 1; '
-             'length 2: %s; length 3: %s' % (
-                 '/'.join(str(len(alphabet(k))) for k in TREES),
-                 'all x core' if quick else 'all x all (mixed: all x core + core x all)',
-                 'none' if quick else 'core-small^3')))
+      scope=('4 trees (mixed Dict/List/Object, Object root, List root, typed '
+             'Object with value specs); alphabet = every list/dict/object '
+             'mutator x 8 value classes x every container of the tree '
+             f'({sizes} statements, of which core: {cores}); all histories of '
+             'length 1; length 2: '
+             + ('core x core restricted to pairs with (j - i) % 7 == seed % 7'
+                if quick else
+                'core x core, all x core[::5], core[::5] x all; length 3: '
+                'core[::6]^3')))
   with _Watchdog(10) as wd:
+    _initial_trees(rec)
     for kind in TREES:
       ops = alphabet(kind)
       core = [o for o in ops if o.core]
       if quick:
-        # length 1: all; length 2: core x core.
         _enumerate(rec, kind, ops, [], wd=wd)
-        small = core[::3] if kind == 'mixed' else core[::2]
-        _enumerate(rec, kind, core, small, wd=wd)
+        _enumerate(rec, kind, core,
+                   lambda i: core[(i + seed) % 7::7],  # pylint: disable=cell-var-from-loop
+                   wd=wd, record_first=False)
       else:
-        _enumerate(rec, kind, ops, core, wd=wd)
-        _enumerate(rec, kind, core, [o for o in ops if not o.core], wd=wd)
-  return rec.result()
-
-
-def drv_histories_random(tier, seed):
-  """Seeded random longer histories (length 3..7), checked after every step."""
-  quick = tier == 'quick'
-  n = 500 if quick else 12000
-  rec = Recorder(
-      'C01', 'tree well-formedness after every step of random histories',
-      scope=f'{n} seeded histories per tree of length 3..7 over the full alphabet '
-            '(ops known to break the tree on the unchanged code are drawn with low weight)')
-  with _Watchdog(10) as wd:
-    for kind in TREES:
-      ops = alphabet(kind)
-      r = rng(seed, 'c01-random-' + kind)
-      # Down-weight operations that break the tree at step one, so that
-      # histories get long; they are still drawn.
-      breaking = set()
-      for o in ops:
-        st = run_history(kind, [o], wd)
-        if st[-1][2]:
-          breaking.add(o.src)
-      good = [o for o in ops if o.src not in breaking]
-      bad = [o for o in ops if o.src in breaking]
-      for _ in range(n):
-        k = r.randint(3, 7)
-        hist = [r.choice(bad) if (bad and r.random() < 0.03) else r.choice(good)
-                for _ in range(k)]
-        steps = run_history(kind, hist, wd)
-        if any(s[1] for s in steps):
-          hist, steps = _shrink(kind, hist, steps, wd)
-        record_history(rec, kind, hist, steps)
+        _enumerate(rec, kind, ops, [], wd=wd)
+        _enumerate(rec, kind, core, core, wd=wd, record_first=False)
+        noncore = [o for o in ops if not o.core]
+        _enumerate(rec, kind, noncore, core[(seed % 5)::5], wd=wd,
+                   record_first=False)
+        _enumerate(rec, kind, core[(seed % 5)::5], noncore, wd=wd,
+                   record_first=False)
+        small = core[(seed % 6)::6]
+        _enumerate(rec, kind, small, small, small, wd=wd, record_first=False)
   return rec.result()
 
 
 def _sig(steps):
   s = steps[-1]
-  return (s[0].src, tuple(sorted({v[0] for v in s[1]})))
+  return (s.op.src, s.tree[0] if s.tree else None,
+          tuple(sorted(v[0] for v in s.removed)))
 
 
 def _shrink(kind, hist, steps, wd):
-  """Greedy removal of steps that are not needed for the last violation."""
-  # Cut at the first violating step.
-  first = next(i for i, s in enumerate(steps) if s[1])
+  """Greedy removal of steps that are not needed for the first violation."""
+  first = next(i for i, s in enumerate(steps) if s.bad)
   hist = hist[:first + 1]
   steps = steps[:first + 1]
   want = _sig(steps)
@@ -795,105 +927,146 @@ def _shrink(kind, hist, steps, wd):
   while i < len(hist) - 1:
     cand = hist[:i] + hist[i + 1:]
     st = run_history(kind, cand, wd)
-    if len(st) == len(cand) and st[-1][1] and _sig(st) == want and not any(s[1] for s in st[:-1]):
+    if (len(st) == len(cand) and st[-1].bad and _sig(st) == want
+        and not any(s.bad for s in st[:-1])):
       hist, steps = cand, st
     else:
       i += 1
   return hist, steps
 
 
+def drv_histories_random(tier, seed):
+  """Seeded random longer histories (length 3..7), checked after every step."""
+  quick = tier == 'quick'
+  n = 220 if quick else 6000
+  rec = Recorder(
+      'C01', 'tree well-formedness after every step of random histories',
+      scope=f'{n} seeded histories per tree (4 trees) of length 3..7 over the '
+            'full alphabet; a statement that breaks the tree as a single step '
+            'on the running code is kept with probability 5% only, so that '
+            'histories get long; failing histories are shrunk greedily')
+  with _Watchdog(10) as wd:
+    for kind in TREES:
+      ops = alphabet(kind)
+      r = rng(seed, 'c01-random-' + kind)
+      for _ in range(n):
+        k = r.randint(3, 7)
+        hist = []
+        while len(hist) < k:
+          o = r.choice(ops)
+          if _single(kind, o, wd) and r.random() > 0.05:
+            continue
+          hist.append(o)
+        steps = run_history(kind, hist, wd)
+        if any(s.bad for s in steps):
+          hist, steps = _shrink(kind, hist, steps, wd)
+        record_history(rec, kind, hist, steps)
+  return rec.result()
+
+
 _SELF_INSERTION_CASES = [
     ('dict.setattr/self', "d = pg.Dict()\nroot = d", "d.a = d"),
-    ('dict.setitem/ancestor-below-descendant', "d = pg.Dict(a=pg.Dict(b=pg.Dict()))\nroot = d", "d.a.b['c'] = d"),
-    ('list.append/self', "l = pg.List([1])\nroot = l", "l.append(l)"),
-    ('list.setitem/ancestor-below-descendant', "l = pg.List([pg.Dict(x=pg.List([0]))])\nroot = l", "l[0].x[0] = l"),
-    ('list.insert/ancestor-below-descendant', "l = pg.List([pg.Dict(x=pg.List([0]))])\nroot = l", "l[0].x.insert(0, l)"),
-    ('object.setattr/self', "o = A(x=1)\nroot = o", "o.x = o"),
-    ('object.rebind/ancestor-below-descendant', "o = A(x=pg.Dict(y=1))\nroot = o", "o.rebind({'x.y': o})"),
+    ('dict.setitem/ancestor-below-descendant',
+     "d = pg.Dict(a=pg.Dict(b=pg.Dict()))\nroot = d", "d.a.b['c'] = d"),
     ('dict.update/self', "d = pg.Dict(a=1)\nroot = d", "d.update({'b': d})"),
-    ('dict.rebind/detached-subtree-root-below-itself', "d = pg.Dict(a=pg.Dict(b=pg.Dict()))\nroot = d.pop('a')\nroot.sym_setparent(None)", "root.b.c = root"),
+    ('dict.rebind/ancestor-below-descendant',
+     "d = pg.Dict(a=pg.Dict(b=1))\nroot = d", "d.rebind({'a.b': d})"),
+    ('list.append/self', "l = pg.List([1])\nroot = l", "l.append(l)"),
+    ('list.setitem/ancestor-below-descendant',
+     "l = pg.List([pg.Dict(x=pg.List([0]))])\nroot = l", "l[0].x[0] = l"),
+    ('list.insert/ancestor-below-descendant',
+     "l = pg.List([pg.Dict(x=pg.List([0]))])\nroot = l", "l[0].x.insert(0, l)"),
+    ('object.setattr/self', "o = A(x=1)\nroot = o", "o.x = o"),
+    ('object.rebind/ancestor-below-descendant',
+     "o = A(x=pg.Dict(y=1))\nroot = o", "o.rebind({'x.y': o})"),
 ]
 
-_SELF_INSERTION_CHECK = '''
-import signal, sys
+_SELF_CHECK = '''\
+import signal
 class _Hang(BaseException): pass
 def _h(*a): raise _Hang()
 signal.signal(signal.SIGALRM, _h)
-def _nodes(root):
-  seen, stack, out = {id(root)}, [((), root)], []
-  while stack:
-    keys, n = stack.pop()
+signal.setitimer(signal.ITIMER_REAL, %(limit)s)
+try:
+  try:
+%(stmt)s
+  except Exception: pass
+  seen, todo = {id(root)}, [root]
+  assert root.sym_parent is None, 'the root got a parent: parent cycle'
+  while todo:
+    n = todo.pop()
     for k, v in n.sym_items():
       if isinstance(v, pg.Symbolic):
-        out.append((keys + (k,), n, v))
-        if id(v) not in seen:
-          seen.add(id(v)); stack.append((keys + (k,), v))
-  return out
-def _wellformed(root):
-  ids = {id(root)}
-  assert root.sym_parent is None, 'root got a parent'
-  for keys, c, v in _nodes(root):
-    assert id(v) not in ids, 'node stored below itself / in two places at %r' % (keys,)
-    ids.add(id(v))
-    assert v.sym_parent is c, 'wrong parent at %r' % (keys,)
-    assert v.sym_path == pg.KeyPath(list(keys)), 'wrong path at %r' % (keys,)
-    assert root.sym_get(pg.KeyPath(list(keys))) is v
+        assert id(v) not in seen, 'a node is stored below itself'
+        assert v.sym_parent is n and v.sym_path == n.sym_path + k, 'wrong parent/path at %%s' %% (n.sym_path + k)
+        seen.add(id(v)); todo.append(v)
+except _Hang:
+  raise AssertionError('inserting a node below itself does not terminate')
+except RecursionError:
+  raise AssertionError('inserting a node below itself overflows the stack')
 '''
 
 
 def _self_insertion_script(setup, stmt, limit):
-  return (PRELUDE + _SELF_INSERTION_CHECK + setup + '\n'
-          + f'signal.setitimer(signal.ITIMER_REAL, {limit})\n'
-          + 'try:\n' + textwrap.indent(stmt, '  ') + '\n'
-          + 'except _Hang:\n  raise AssertionError("inserting a node below itself does not terminate")\n'
-          + 'except RecursionError:\n  raise AssertionError("inserting a node below itself overflows the stack")\n'
-          + 'except Exception: pass\n'
-          + 'finally:\n  signal.setitimer(signal.ITIMER_REAL, 0)\n'
-          + f'signal.setitimer(signal.ITIMER_REAL, {limit})\n'
-          + 'try:\n  _wellformed(root)\n'
-          + 'except _Hang:\n  raise AssertionError("tree walk does not terminate: parent cycle")\n'
-          + 'finally:\n  signal.setitimer(signal.ITIMER_REAL, 0)\n')
+  return (HEAD + (CLASS_A if 'A(' in setup else '') + setup + '\n'
+          + _SELF_CHECK % dict(limit=limit, stmt=textwrap.indent(stmt, '    ')))
 
 
 def drv_self_insertion(tier, seed):
-  """Inserting a node below itself: must terminate and leave a tree (subprocess)."""
+  """Inserting a node below itself must terminate and leave a tree (subprocess)."""
   del seed
   limit = 2 if tier == 'quick' else 5
   rec = Recorder(
       'C01', 'insertion of a node below itself / below its own descendant',
-      scope=f'{len(_SELF_INSERTION_CASES)} cases, each in a subprocess; the call must return or '
-            f'raise within {limit}s and leave a well-formed tree')
+      scope=f'{len(_SELF_INSERTION_CASES)} entry points, each run in a '
+            f'subprocess; the call must return or raise within {limit}s and '
+            'leave a well-formed tree')
   env = dict(os.environ)
   env['PYTHONPATH'] = os.pathsep.join(p for p in sys.path if p)
   procs = []
   for cid, setup, stmt in _SELF_INSERTION_CASES:
     script = _self_insertion_script(setup, stmt, limit)
     p = subprocess.Popen([sys.executable, '-c', script], env=env,
-                         stdout=subprocess.PIPE, stderr=subprocess.PIPE)
-    procs.append((cid, stmt, script, p))
-  for cid, stmt, script, p in procs:
+                         stdout=subprocess.DEVNULL, stderr=subprocess.PIPE)
+    procs.append((cid, setup, stmt, p))
+  for cid, setup, stmt, p in procs:
     try:
-      _, err = p.communicate(timeout=60)
+      _, err = p.communicate(timeout=90)
       ok = p.returncode == 0
-      msg = err.decode(errors='replace').strip().splitlines()[-1:] or ['']
-      msg = msg[0]
+      msg = (err.decode(errors='replace').strip().splitlines() or [''])[-1]
     except subprocess.TimeoutExpired:
       p.kill()
       p.communicate()
-      ok, msg = False, 'subprocess did not finish within 60s'
-    kindmsg = 'non-terminating' if 'terminate' in msg else (
-        'stack-overflow' if 'overflows' in msg else 'malformed-tree')
-    rec.case(f'self-insertion/{cid}' + ('' if ok else '/' + kindmsg), stmt, ok,
-             message=msg, witness=_self_insertion_witness(script))
+      ok, msg = False, 'does not terminate (subprocess killed after 90s)'
+    if ok:
+      sub = ''
+    elif 'terminate' in msg:
+      sub = '/non-terminating'
+    elif 'overflows' in msg:
+      sub = '/stack-overflow'
+    else:
+      sub = '/malformed-tree'
+    rec.case(f'self-insertion/{cid}{sub}', stmt, ok, message=msg,
+             witness=_self_insertion_witness(setup, stmt))
   return rec.result()
 
 
-def _self_insertion_witness(script):
-  # The witness runs the script in a subprocess so that replaying it cannot
-  # hang the caller.
-  return ('import subprocess, sys\n'
-          f'p = subprocess.run([sys.executable, "-c", {script!r}], capture_output=True, timeout=120)\n'
-          'assert p.returncode == 0, p.stderr.decode()[-300:]\n')
+def _self_insertion_witness(setup, stmt):
+  # Runs in a subprocess so that replaying cannot hang the caller.
+  src = ('import pyglove as pg\n' + (CLASS_A if 'A(' in setup else '') + setup
+         + '\ntry:\n' + textwrap.indent(stmt, '  ') + '\nexcept Exception: pass\n'
+         'n, seen = root, set()\n'
+         'while n is not None:\n'
+         '  assert id(n) not in seen, "parent cycle"\n'
+         '  seen.add(id(n)); n = n.sym_parent\n')
+  return ('import os, subprocess, sys\n'
+          f'src = {src!r}\n'
+          'env = dict(os.environ, PYTHONPATH=os.pathsep.join(p for p in sys.path if p))\n'
+          'try:\n'
+          '  p = subprocess.run([sys.executable, "-c", src], env=env, capture_output=True, timeout=20)\n'
+          'except subprocess.TimeoutExpired:\n'
+          '  raise AssertionError("inserting a node below itself does not terminate")\n'
+          'assert p.returncode == 0, p.stderr.decode()[-200:]\n')
 
 
 DRIVERS = [drv_histories_exhaustive, drv_histories_random, drv_self_insertion]
